@@ -11,4 +11,8 @@ gcc -c -O1 -fPIC stubs/compstub.c -o "$T/compstub.o"
 ar rcs stubs/lib/libjuno_starknet_compiler_rs.a "$T/compstub.o"
 rm -rf "$T"
 cp /repo/go.sum harness/go.sum
+grep -q '^pgregory.net/rapid v1.3.0 ' harness/go.sum || cat >> harness/go.sum <<'SUM'
+pgregory.net/rapid v1.3.0 h1:vBvO0VSqti75J1jjYqpgPNBLKMd1+gxa9fYo7vk/Exc=
+pgregory.net/rapid v1.3.0/go.mod h1:dPlE4OBBxgXPqkP79flB6sJL1dx5azpI7HQ9MY9Z7uk=
+SUM
 echo "setup ok"
